@@ -559,7 +559,11 @@ SCALE_N = 40
 AXES = {"plain": (0.0, 1.0, 0.5),          # t0, step, eps (all float32 exact)
         "hours": (1.9e6, 6.0, 0.5),        # "hours since 1800", 6-hourly:
                                            # magnitude/spacing 3e5, ulp 0.125
-        "hours17e6": (1.7e7, 6.0, 2.0)}    # beyond 2^24: ulp 2
+        "hours17e6": (1.7e7, 6.0, 2.0),    # beyond 2^24: ulp 2
+        # time stamps that are NOT representable in single precision (the
+        # grid stores float32): bounds given as the float64 stamp itself
+        "monthly": (1950.0, 1.0 / 12.0, 0.02),
+        "tenths": (0.0, 0.1, 0.03)}
 
 
 def scale_latlon():
@@ -590,6 +594,13 @@ def scale_windows(T, axis):
         (t(T - 1) + eps, t(T - 1) + 100 * dt), # entirely outside
         (t(1), t(T - 2)),                      # all but the two end samples
     ]
+    if axis in ("monthly", "tenths"):
+        # bounds ON a sample stay the caller's float64 stamp; the others are
+        # taken as single-precision numbers (strictly between the stored
+        # samples, see refmodel/datawin.select)
+        stamps = set(t(k) for k in range(T))
+        times = [tuple(v if v in stamps else M.f32(v) for v in tw)
+                 for tw in times]
     spaces = [((0.0, 0.0), (0.0, 0.0)),
               ((-20.0, 29.5), (-90.0, 90.0)),      # bounds on samples (lat)
               ((-21.0, 31.0), (-100.5, 120.125)),  # between samples
@@ -623,7 +634,10 @@ def fam_scale(case):
         v["msg"] = "T=%d N=%d time axis %s :: %s" % (T, SCALE_N, axis,
                                                        v["msg"])
         # input class: long series / 40 nodes / large-magnitude time axis
-        v["key"] += ":scale" + ("" if axis == "plain" else "-time-magnitude")
+        v["key"] += ":scale" + ("" if axis == "plain" else
+                                "-non-dyadic-time" if axis in (
+                                    "monthly", "tenths") else
+                                "-time-magnitude")
     sig = [(len(x[0]), len(x[1])) + tuple(x[2:]) if isinstance(x, tuple)
            else x for x in sigs]
     return _result(d, repr(sig), ev, len(set(map(repr, sig))) < 3, ntr, 1)
@@ -756,6 +770,9 @@ def run(ctx):
                                  ("ClimateData", 7, True))]
     cases += [["ClimateData", 40, "hours", 5, False],
               ["Data", 40, "hours", 1, False]]
+    cases += [[cls, T, ax, c, a] for T in ([130, 150] + (
+        [209, 300] if thorough else [])) for ax in ("monthly", "tenths")
+        for (cls, c, a) in (("Data", 1, False), ("ClimateData", 12, False))]
     ctx.explore("scale", cases, chunk=1, desc="T=130..300 samples x 40 "
                 "nodes; time axis 0,1,2.. and 1.9e6+6k (magnitude/spacing "
                 "3e5): 11 windows on/between/just outside samples on one "
